@@ -5,7 +5,7 @@ TB = "Trusted base: rustc nightly's MIR construction, drop elaboration, type che
 
 def register(check, na):
     check("C04", "other",
-          "Static path analysis of every API body: count and owners move in lock-step (R-BAL); per API named by the properties the set of count deltas over all normal paths equals the documented class (R-DELTA: +1 clone, -1 release, 0 borrow/move/compare/format, constructors, raw in/out, COW, unwrap); running deltas are zero at every callback call site inside a borrow (R-CBZERO); the seven count accessors forward the loaded count word of their receiver's block unmodified (R-FWD).",
+          "Static path analysis of every API body: count and owners move in lock-step (R-BAL); per API named by the properties the set of count deltas over all normal paths equals the documented class (R-DELTA: +1 clone, -1 release, 0 borrow/move/compare/format, constructors, raw in/out, COW, unwrap); running deltas are zero at every callback call site inside a borrow (R-CBZERO); the seven count accessors forward the loaded count word of their receiver's block unmodified (R-FWD); unwind paths balanced (R-UNW); no use after a non-final release; count word addressed only as the typed header field (R-COUNT-ADDR).",
           TB + " API class table in analysis/props/c04.py.", "MIR balance analysis + per-API count-delta table + accessor forwarding dataflow", "DESIGN.md 4/C04")
     check("C07", "other",
           "Every unwind path (MIR cleanup edges) of every API body: no owner released twice, no live handle leaked when user code or a library assertion unwinds, only a half-built block may leak (R-UNW); handle minted after the last user call in constructors; iterator-length re-check guards construction (R-RECHECK); with_arc_mut's write-back guard runs on both exits (R-GUARD); allocator results are null-tested and failure reaches handle_alloc_error (R-NULL). Decides the structural conditions; does not inject faults.",
@@ -20,10 +20,10 @@ def register(check, na):
 
 def _more(check, na):
     check("C02", "other",
-          "Premises of the release/acquire reference-counting lemma checked on all atomic sites: decrement Release-or-stronger; acquire load/fence on the count word between the decrement that observed 1 and the free; the free is guarded by `value returned by the decrement == 1`; no non-atomic or store/swap/CAS access to the count field after initialisation; nothing touched after the free; all handle kinds funnel through Arc's single increment and decrement. The memory model is the trusted lemma; no schedule is explored.",
+          "Premises of the release/acquire reference-counting lemma checked on all atomic sites: decrement Release-or-stronger; acquire load/fence on the count word between the decrement that observed 1 and the free; the free is guarded by `value returned by the decrement == 1`; no non-atomic or store/swap/CAS access to the count field after initialisation; nothing touched after the free; all handle kinds funnel through Arc's single increment and decrement; a body that gave its count back without being last touches the block no more; the count word is only addressed as the typed header field (no pointer re-typed as atomic except a block start). The memory model is the trusted lemma; no schedule is explored.",
           TB + " The C++11/Rust release-acquire counting lemma.", "ordering-discipline and def-use rules over MIR atomic call sites", "DESIGN.md 4/C02")
     check("C03", "other",
-          "Every producer of exclusive access (payload `&mut` through a handle, `&mut Arc`->`&mut UniqueArc` cast, UniqueArc construction; unsafe constructors at their call sites) is, on every CFG path from entry, behind the true edge of the `Acquire load(count) == 1` gate on the same handle, behind an assignment of a fresh handle, or typed sole owner; decline paths are event-free and return the same value; deprecated writers go through the panicking check.",
+          "Every producer of exclusive access (payload `&mut` through a handle, `&mut Arc`->`&mut UniqueArc` cast, UniqueArc construction; unsafe constructors at their call sites) is, on every CFG path from entry, behind the true edge of the `Acquire load(count) == 1` gate on the same handle, behind an assignment of a fresh handle, or typed sole owner; decline paths are event-free and return the same value; deprecated writers go through the panicking check; payload borrows through value-pointer handles (OffsetArc/ArcBorrow) are producers too; no use of a block after a non-final release; count word addressed only as the typed header field.",
           TB + " Release/acquire lemma; C04 (count = owners). One frozen exemption listed in the evidence.", "gate-dominance (cut-set reachability) over MIR + role inference of the gate", "DESIGN.md 4/C03")
     check("C16", "other",
           "One increment site adding the constant 1; the value it returns is compared with a rustc-evaluated constant equal to isize::MAX (> or equivalent >=); every path through the tripped edge neither returns nor unwinds; the handle is built only behind the other edge; the abort callee is std::process::abort (std) or a local routine whose computed summary has no returning and no unwinding path (no_std); six clone entry points increment exactly once. Both std and no_std configurations.",
@@ -41,19 +41,19 @@ def _more3(check, na):
           "Tag discipline decided by extracting the integer expressions of from_first/from_second/is_first/borrow from MIR def-use chains and evaluating them on feasible payload addresses (store ptr / ptr|1, test word&1==0, strip only the tag, each typed at its own parameter); variant arms of Clone/Drop/as_first/as_second/PartialEq use their own type and constructor; the payload address parity lemma from repr(C) layout. Width and niche are checked by C11's compile-time witnesses.",
           TB + " Expression evaluator analysis/symx.py.", "symbolic expression extraction from MIR + evaluation on a finite address set; variant-arm rules", "DESIGN.md 4/C12")
     check("C13", "proof",
-          "rustc is the oracle: impl-table exactness of the twelve manual Send/Sync impls (for all payload types at once) and a witness corpus compiled against an rlib of the current tree in each configuration - generic positives, generic negatives with exactly one bound missing (E0277 on the marked line), witness payloads of each auto-trait class, every borrow-escape and aliasing route, drop-check per handle kind - each negative witness with exact (line, code) expectations and a compiling twin. obligations = expected rejections + twins + accepts + impl facts, all discharged by rustc.",
-          "Trusted base: rustc nightly's type, borrow and drop checkers; witnesses cover the routes listed in the property (a route nobody wrote down is not covered).", "compile-pass / compile-fail witnesses with twins + impl-predicate exactness", "DESIGN.md 4/C13, 2/E-B")
+          "rustc is the oracle: impl-table exactness of the twelve manual Send/Sync impls (for all payload types at once) and a witness corpus compiled against an rlib of the current tree in each configuration - generic positives, generic negatives with exactly one bound missing (E0277 on the marked line), witness payloads of each auto-trait class, every borrow-escape and aliasing route, drop-check per handle kind - each negative witness with exact (line, code) expectations and a compiling twin; plus two signature rules over the type-checked crate: no safe function's output carries a lifetime that none of its inputs carries or outlives (R-LIFETIME), and owning handles own their #[may_dangle] parameters through a marker in an owning position (R-PHANTOM). obligations = expected rejections + twins + accepts + impl facts, all discharged by rustc.",
+          "Trusted base: rustc nightly's type, borrow and drop checkers; witnesses cover the routes listed in the property (a route nobody wrote down is covered only by R-LIFETIME/R-AUTO/R-PHANTOM).", "compile-pass / compile-fail witnesses with twins + impl-predicate exactness + signature-region lint over the type-checked crate", "DESIGN.md 4/C13, 2/E-B")
     check("C17", "other",
-          "Linear-use shape of the four serde methods from MIR def-use: one user call on the handle's whole Deref target, serializer/deserializer moved into it exactly once, result returned unchanged (serialize) or consumed only by Result::map with a fresh-sole-owner constructor (deserialize); nothing allocated before the payload's deserializer returns; path set {nothing, one fresh sole owner}. By parametricity the serializer sees the payload's call sequence.",
+          "Linear-use shape of the four serde methods from MIR def-use: one user call on the handle's whole Deref target, serializer/deserializer moved into it exactly once, result returned unchanged (serialize) or consumed only by Result::map with a fresh-sole-owner constructor (deserialize); nothing allocated before the payload's deserializer returns; path set {nothing, one fresh sole owner}; any further method of these impls (e.g. deserialize_in_place) never writes into a possibly shared value. By parametricity the serializer sees the payload's call sequence.",
           TB + " Result::map semantics; parametricity.", "def-use linearity and path-set rules on the serde impls", "DESIGN.md 4/C17")
 
 
 def _more4(check, na):
     check("C05", "translation_validation",
-          "The Layout expression reaching every raw alloc call is extracted from MIR (across the helper chain, parameters substituted per caller) and evaluated on the property's (header, element, length) shape matrix against the repr(C) layout of the block type the allocation is handed out and later freed as (Box<INNER<X>>); overflow must panic; same for the data offset used by from_raw; repr(C)/transparent facts; every block-pointer re-typing is between equal layouts on the matrix; free sites use the handle's own pointer; null-checked allocation. A disagreement comes with a concrete (H, T, len) witness. programs = allocation chains and re-typing casts; disagreements_checked = matrix cells evaluated.",
+          "The Layout expression reaching every raw alloc call is extracted from MIR (across the helper chain, parameters substituted per caller) and evaluated on the property's (header, element, length) shape matrix against the repr(C) layout of the block type the allocation is handed out and later freed as (Box<INNER<X>>); overflow must panic; same for the data offset used by from_raw; repr(C)/transparent facts; every block-pointer re-typing is between equal layouts on the matrix; free sites use the handle's own pointer; fabricated fat block pointers take their length from the allocation length or the stored length, and the stored length is only ever written through the length-checked conversion; null-checked allocation. A disagreement comes with a concrete (H, T, len) witness. programs = allocation chains and re-typing casts; disagreements_checked = matrix cells evaluated.",
           "Trusted base: std's documented Layout arithmetic and the repr(C) algorithm as re-implemented in analysis/layout.py; rustc MIR def-use; Box frees with the layout of its pointee type. The allocator's behaviour is not decided.", "layout-expression extraction from MIR + exhaustive evaluation on a shape matrix", "DESIGN.md 4/C05")
     check("C11", "other",
-          "Each raw accessor is reduced (inlining resolved callees over MIR def-use) to a normal form over the handle's stored pointer; algebraic checks: as_ptr/into_raw denote the address Deref yields, agree with each other and with the arc-swap glue, compose with from_raw/from_raw_slice/from_raw_offset to the original block pointer via the offset lemma (validated on the layout matrix), OffsetArc/ArcBorrow store the value address, heap_ptr is the block start; data pointers are formed without going through &T; repr(transparent) facts and compile-time width/niche witnesses. One known finding listed in known_findings.json (ThinArc::as_ptr/into_raw return the block start).",
+          "Each raw accessor is reduced (inlining resolved callees over MIR def-use) to a normal form over the handle's stored pointer; algebraic checks: as_ptr/into_raw denote the address Deref yields, agree with each other and with the arc-swap glue, compose with from_raw/from_raw_slice/from_raw_offset to the original block pointer via the offset lemma (validated on the layout matrix), OffsetArc/ArcBorrow store the value address (ArcUnion's borrow strips exactly the tag bit for every pair of payload alignments), heap_ptr is the block start; data pointers are formed without going through &T; repr(transparent) facts and compile-time width/niche witnesses. One known finding listed in known_findings.json (ThinArc::as_ptr/into_raw return the block start).",
           TB, "pointer normal-form analysis + compile-time layout witnesses", "DESIGN.md 4/C11, 6")
 
 
